@@ -20,7 +20,7 @@ Tmpls == << [t |-> PH(2, 1), gb |-> <<>>],
             [t |-> NOTe([op |-> "or", es |-> <<PH(2, 1), PH(2, 2), PH(3, 3)>>]), gb |-> <<2, 3>>],
             [t |-> [op |-> "or", es |-> <<[op |-> "and", es |-> <<PH(2, 2), EQ(3, 2)>>], PH(2, 2)>>], gb |-> <<>>],
             [t |-> PH(1, 1), gb |-> <<>>] >>                                                          \* unknown column
-ArgLists == UNION {[1..k -> {1, 2, 3}] : k \in 0..MaxArgs}
+ArgLists == UNION {[1..k -> {1, 2, 3, 4}] : k \in 0..MaxArgs}
 
 \* the statement state machine
 VARIABLES stmt, last
@@ -32,6 +32,10 @@ Next == \E i \in DOMAIN Tmpls : \E a \in ArgLists : StmtQuery(i, a)
 Spec == Init /\ [][Next]_gvars
 TemplatesImmutable == [][stmt' = stmt]_gvars
 BindExact == \A i \in DOMAIN Tmpls : \A a \in ArgLists : Len(a) >= MaxPh(Tmpls[i].t) => MaxPh(BindR(Tmpls[i].t, a)) = 0
+DSNs == [scheme : {"file", "other"}, preload : {"absent", "true", "false", "junk"}, lrucache : {"absent", "true", "false", "junk"},
+         size : {"absent", "zero", "num", "junk", "neg"}]
+EmitDSN == (Emit /\ last = ErrRes) =>
+   \A d \in DSNs : PrintT(ToJson([tag |-> "dsn", dsn |-> d, usable |-> DSNUsable(d)]))
 PairLT(a, b) == a[1] < b[1]
 RowPairs(r) == SetToSortSeq({<<c, r[c]>> : c \in DOMAIN r}, PairLT)
 EmitAll == (Emit /\ last = ErrRes) =>
